@@ -19,7 +19,7 @@ ipv6.py:326-427 (fixed header), icmpv6.py:925-1014 + echo 820-851, udp.py:151-17
 gre.py:100-205, vxlan.py:80-115, igmp.py:85-202, rip.py:80-199.
 -/
 namespace Pox.Packet
-open Pox Pox.Layout Pox.Checksum
+open Pox Pox.PktLayout Pox.Checksum
 
 /-! ## records -/
 
